@@ -123,11 +123,11 @@ PROPS = {
         all_labels_in_scope=True,
         thorough=True,
         explanation='Item::size == points, Item::traverse == nth_point (depth first, top first), Item::equals == deep_eq, Item::contains == first_pos (with the lemma: the point at first_pos is deep-equal to the pattern, '
-                    'i.e. POSITION returns an index at which EXTRACT returns the searched item), CODE.SIZE/EXTRACT/POSITION/LENGTH/NULL/ATOM/CAR/CDR/CONS/LIST/FROM* rows',
-        not_decided=['CODE.INSERT / Item::insert: only panic-freedom, termination and "an out-of-range index changes no size" are proved; the replaced position (replace_idx = depth-1) is wrong after a nested list '
-                     '(confirmed natively: `( CODE.QUOTE 99 CODE.QUOTE ( ( 1 ) 2 3 ) 3 CODE.INSERT )` gives ( ( 1 ) 2 99 )): no contract states the documented result, so this is not a checked obligation',
+                    'i.e. POSITION returns an index at which EXTRACT returns the searched item), CODE.SIZE/EXTRACT/POSITION/CONTAINS/MEMBER/LENGTH/NULL/ATOM/CAR/CDR/CONS/LIST/FROM* rows (CONTAINS / MEMBER: TRUE exactly when some point of the container is deep-equal to the other operand)',
+        not_decided=['CODE.INSERT / Item::insert: panic-freedom, termination, "in range => Ok" and "an out-of-range index changes no size" are proved; the two defects found by reading (wrong sibling replaced after a nested list, '
+                     'index 0 ignored) were repaired and confirmed natively (known_findings.json, fixed)',
                      'CODE.CONTAINER / CODE.SUBST / Item::container / Item::substitute: operand handling, shapes and termination only',
-                     'CODE.MEMBER / CODE.CONTAINS / CODE.DISCREPANCY / CODE.= compare printed strings (str::contains, to_string): outside Verus; bodies external',
+                     'CODE.DISCREPANCY (iterator adapters, string-keyed HashMap) and CODE.= on printed strings: outside Verus; bodies external',
                      'CODE.NTH / CODE.APPEND: operand handling and footprint only'],
     ),
     'C12': dict(
